@@ -40,7 +40,7 @@ ASSUMPTIONS = ["values are compared numerically after JSON parsing (a lookup can
                "stream-steps comes last in a partition (it runs to the stop time)"]
 FAULT_KINDS = []
 PROBES = ["decimal_dt", "fractional_start", "mixed_partition", "per_step_settings", "equation_subset_without_dependencies", "two_scenarios_different_runspecs",
-          "stream_in_partition", "points_step_setting", "runspecs_in_session_settings"]
+          "stream_in_partition", "points_step_setting", "runspecs_in_session_settings", "flat_results_requested"]
 EXHAUSTIVE = {"quick": False, "thorough": False}
 
 STARTS = [0.0, 1.0, 2.5]
@@ -69,6 +69,8 @@ def gen_partition(rng, nsteps):
         else:
             parts.append({"kind": "stream"})
             left = 0
+        if rng.random() < 0.2:
+            parts[-1]["flat"] = True        # REST flatResults flag
     return parts
 
 
@@ -377,23 +379,41 @@ def rest_channel(case, res, log, want, ref):
         acc = {}
         k = 0
         for part in case["partition"]:
+            flat = bool(part.get("flat"))
+            k_first = k
+            extra = {"flatResults": True} if flat else {}
+            if flat:
+                res.probe("flat_results_requested")
             if part["kind"] == "run_step":
                 st = settings_for(case, k)
-                r = w.post("/%s/run-step" % iid, {"settings": st})
+                r = w.post("/%s/run-step" % iid, {"settings": st, **extra})
                 bodies = [r.body]
                 k += 1
             elif part["kind"] == "run_steps":
                 # the same settings are passed to each of the n steps: only allowed to carry the setting of its first step
                 st = settings_for(case, k)
-                r = w.post("/%s/run-steps" % iid, {"settings": st, "numberSteps": part["n"]})
+                r = w.post("/%s/run-steps" % iid, {"settings": st, "numberSteps": part["n"], **extra})
                 bodies = r.body if isinstance(r.body, list) else [r.body]
                 k += part["n"]
             else:
                 res.probe("stream_in_partition")
                 st = settings_for(case, k)
-                r, _, parts = w.stream("/%s/stream-steps" % iid, {"settings": st})
+                r, _, parts = w.stream("/%s/stream-steps" % iid, {"settings": st, **extra})
                 bodies = r.body if isinstance(r.body, list) else [None]
                 k = len(grid)
+            if flat and r.status == 200:
+                # flat results carry no time: the j-th body of the request belongs to grid index k_first + j
+                conv = []
+                for j, bdy in enumerate(bodies):
+                    if isinstance(bdy, dict) and "msg" in bdy:
+                        conv.append(bdy)
+                        continue
+                    try:
+                        t = grid[k_first + j]
+                        conv.append({MGR: {SCN: {eq: {t: v} for eq, v in bdy[MGR][SCN].items()}}})
+                    except Exception:
+                        conv.append(None)
+                bodies = conv
             if r.status != 200:
                 res.violate("C09.i-request-failed", {"channel": "REST " + part["kind"], "status": r.status, "body": str(r.text)[:160]})
                 return
